@@ -1468,6 +1468,9 @@ func (nh *NodeHost) getShard(shardID uint64) (*node, bool) {
 func (nh *NodeHost) forEachShard(f func(uint64, *node) bool) uint64 {
 	nh.mu.RLock()
 	defer nh.mu.RUnlock()
+	if verifEnabled {
+		return nh.verifForEachShard(f)
+	}
 	nh.mu.shards.Range(func(k, v interface{}) bool {
 		return f(k.(uint64), v.(*node))
 	})
